@@ -6762,6 +6762,24 @@ impl RelationalEngine {
 
         let row_id = slab_row_id.as_u64() + 1;
 
+        // The new row belongs to this transaction until it ends: lock it, as tx_update and
+        // tx_delete lock the rows they change, so that no other transaction modifies or
+        // deletes a row whose insert may still be rolled back.
+        if let Err(info) = self
+            .tx_manager
+            .lock_manager()
+            .try_lock(tx_id, &[(table.to_string(), row_id)])
+        {
+            // Someone else already holds this row: take it back out, nothing else was written.
+            let _ = self.slab().delete(table, slab_row_id);
+            return Err(RelationalError::LockConflict {
+                tx_id,
+                blocking_tx: info.blocking_tx,
+                table: info.table,
+                row_id: info.row_id,
+            });
+        }
+
         // Update row counter
         self.row_counters
             .entry(table.to_string())
